@@ -78,7 +78,12 @@ the Go code and a concrete instance.
     conditions, `match` scrutinees, `for` bounds, call and `println` arguments, `return` and trailing
     expressions; `l.push(e)` with any `e` when the receiver or the argument is an atom. The origin of a pushed
     value is left open in these contexts (`Sim.OrgOK`), also for the results of calls.
-   (Proofs of 9–20: `Lemmas/SimH*.lean`; the simulation is combined in `SimHAll.allP`. From
+21. `isSome_spec`, `meth0_vm`, `meth0_correct`, `unwrap_spec`, `unwrapOr_spec`, `unwrap_vm_some`, `unwrap_vm_none`,
+    `unwrap_vm_null`, `unwrapOr_vm`, `unwrap_null_witness` — options and strings: `?e`, `none`, `+`, `==` are in the
+    fragment since sections 3–5, `s.len()` since 19; new are `o.is_some()` / `o.is_none()` as expressions;
+    `unwrap`/`unwrap_or` stay outside (finding V28: a builtin's `null` result is not pushed — witness on both
+    models), their instructions are described.
+   (Proofs of 9–21: `Lemmas/SimH*.lean`; the simulation is combined in `SimHAll.allP`. From
    section 9 on, VM runs are `execHN` — instruction sequences including `Core.Run`'s exception
    dispatch — and the states `mkS s calls mp k stk mem w` carry a world `w` = heap and output.)
 -/
@@ -3375,7 +3380,7 @@ program starts with. -/
 
 /-- **The heap invariant is what makes `l.len` / `l.push` the builtin method.** -/
 theorem method_spec (b : Val) (name : String) (sp : Span) (st : St) (hinv : HeapInv st.heap)
-    (hn : name = "len" ∨ name = "push") :
+    (hn : name ∈ methNames) :
     memberVal b name .dot sp st = (.ok (.bound b name), st) ∨
       ∃ w, memberVal b name .dot sp st = (.error (.unsupported w), st) :=
   memberVal_method b name sp st hinv hn
@@ -3850,5 +3855,244 @@ example : ∃ K, ∀ quantum, K ≤ quantum → ∀ vfuel, ∃ s',
     obtain ⟨s', hrun, hst, hmp, hcalls, hstk⟩ := hK quantum hq vfuel
     exact ⟨s', hrun, by rw [hst]; exact hs, hmp, hcalls⟩
 end Example20
+
+/-! ## 21. Options and strings
+
+`?e` (`Some`) and `none` are in the expression fragment since section 5 (`preOp .some`, the literal
+`none`); string concatenation `+`, `==` and `!=` on strings are `binOp` (sections 3–5), `s.len()` is the
+method `len` of section 19 on a string. New here: the methods `o.is_some()` and `o.is_none()` as
+expressions (`meth0`: methods that read only, never yield `null`, fail only as unsupported), and what the
+models say about `o.unwrap()` and `o.unwrap_or(d)`.
+
+`unwrap`/`unwrap_or` are *not* in the simulated fragment: a builtin's `null` result is not pushed by
+`Call_Val` (finding V28, `/repo/homescript/runtime/execute.go:131-135`), so `(?null).unwrap()` in a value
+position leaves the VM's stack one short while the specification goes on (`unwrap_null_witness`); whether
+the payload is `null` is not visible in the program text. Their instruction-level behaviour is stated
+below (`unwrap_vm_some`, `unwrap_vm_none`: the catchable exception, `unwrap_vm_null`, `unwrapOr_vm`). -/
+
+/-- **`o.is_some()` / `o.is_none()` in the specification**: a boolean on an option, unsupported on any
+other value; the state is not touched. -/
+theorem isSome_spec (nm : String) (hnm : nm = "is_some" ∨ nm = "is_none") (recv : Val) (sp : Span) (st : St) :
+    (∃ o, recv = .opt o ∧
+      callMember recv nm [] sp st = (.ok (.bool (if nm = "is_some" then o.isSome else o.isNone)), st)) ∨
+      (∃ w, ∀ st' : St, st'.heap = st.heap → callMember recv nm [] sp st' = (.error (.unsupported w), st')) :=
+  callMember_opt0 nm hnm recv sp st
+
+/-- **`Call_Val` on a bound method without arguments** whose result is not `null`: the specification's
+`callMember` on the VM's heap, the value pushed. -/
+theorem meth0_vm (code : Code) (lim : Limits) (s : VMState) (fn : String) (ip : Nat)
+    (rest : List Frame) (mp : Int) (k : Nat) (stk : List SVal) (mem : List (Int × Val)) (out : World)
+    (c : List (RInstr × Span)) (hf : findCode code fn = some c) (sp : Span) (nm : String) (recv : Val)
+    (o1 o2 : Option Org) (n : Val)
+    (hx : c[ip]? = some (.callVal, sp))
+    (hr : callMember recv nm [] sp { s.st with heap := out.heap, out := out.out } =
+      (.ok n, { s.st with heap := out.heap, out := out.out })) (hn : n ≠ .null) :
+    exec1 code lim (mkS s (⟨fn, ip⟩ :: rest) mp k (⟨.int (I64.ofInt 0), o1⟩ :: ⟨.bound recv nm, o2⟩ :: stk) mem out) =
+      .next (mkS s (⟨fn, ip + 1⟩ :: rest) mp (k + 1) (⟨n, none⟩ :: stk) mem out) :=
+  mkS_callVal_meth0 code lim s fn ip rest mp k stk mem out c hf sp nm recv o1 o2 n hx hr hn
+
+/-- **`o.is_some()`, `o.is_none()`, `x.len()` as expressions are simulated**: instances of `expr_correctX`
+(`Frag.okE true` allows `b.m()` for `m ∈ meth0`). -/
+theorem meth0_correct (G : GCtx) (hG : G.OK') (fuel : Nat) (A : Act) (hA : A.OK G) (csp : Span) (cty : Ty)
+    (msp : Span) (mty : Ty) (b : Expr) (nm : String) (st : St)
+    (ip : Nat) (stk : List SVal) (mem : Mem) (lm : LM) (scopes : CScopes) (vm : List (String × Nat))
+    (e : Expr) (he : e = .call csp cty (.member msp mty b nm .dot) [] false)
+    (hs : Frag.okE G.fr e = true) (hws : Frag.wsGE scopes A.φ e = true)
+    (hT : ∀ x ∈ Frag.namesGE e, x ∈ A.T)
+    (hpl : Placed A.lab A.σ A.c ip (cgE G.mod (ρS scopes) A.φ e lm).1)
+    (hrel : StRel G.mod A.T A.N A.σ G.lim A.mp scopes vm st.scopes mem) (hsp : SpecOK G A.mp st) :
+    Sim.SimGE G A ip (nI (cgE G.mod (ρS scopes) A.φ e lm).1) stk mem st (evalExpr G.cfg fuel e st) := by
+  subst he
+  exact expr_correctX G hG fuel A hA _ st ip stk mem lm scopes vm hs hws hT hpl hrel hsp
+
+/-- **The specification's `unwrap`**: the payload, or the catchable exception on `none`. -/
+theorem unwrap_spec (o : Option Val) (sp : Span) (st : St) :
+    callMember (.opt o) "unwrap" [] sp st =
+      match o with
+      | some v => (.ok v, st)
+      | none => (.error (.throw "Called 'unwrap' on a 'null' option value" sp), st) := by
+  cases o <;> rfl
+
+/-- **The specification's `unwrap_or`**. -/
+theorem unwrapOr_spec (o : Option Val) (d : Val) (sp : Span) (st : St) :
+    callMember (.opt o) "unwrap_or" [d] sp st = (.ok (o.getD d), st) := rfl
+
+/-- `Call_Val` on `unwrap` of `some v`, `v` not `null`: the payload is pushed. -/
+theorem unwrap_vm_some (code : Code) (lim : Limits) (s : VMState) (fn : String) (ip : Nat)
+    (rest : List Frame) (mp : Int) (k : Nat) (stk : List SVal) (mem : List (Int × Val)) (out : World)
+    (c : List (RInstr × Span)) (hf : findCode code fn = some c) (sp : Span) (v : Val) (o1 o2 : Option Org)
+    (hx : c[ip]? = some (.callVal, sp)) (hv : v ≠ .null) :
+    exec1 code lim (mkS s (⟨fn, ip⟩ :: rest) mp k
+        (⟨.int (I64.ofInt 0), o1⟩ :: ⟨.bound (.opt (some v)) "unwrap", o2⟩ :: stk) mem out) =
+      .next (mkS s (⟨fn, ip + 1⟩ :: rest) mp (k + 1) (⟨v, none⟩ :: stk) mem out) :=
+  mkS_callVal_meth0 code lim s fn ip rest mp k stk mem out c hf sp "unwrap" _ o1 o2 v hx rfl hv
+
+/-- `Call_Val` on `unwrap` of `none`: the exception `Called 'unwrap' on a 'null' option value` at the span
+of the call — an interrupt `Core.Run` dispatches to the innermost handler (`throw_dispatch`). -/
+theorem unwrap_vm_none (code : Code) (lim : Limits) (s : VMState) (fn : String) (ip : Nat)
+    (rest : List Frame) (mp : Int) (k : Nat) (stk : List SVal) (mem : List (Int × Val)) (out : World)
+    (c : List (RInstr × Span)) (hf : findCode code fn = some c) (sp : Span) (o1 o2 : Option Org)
+    (hx : c[ip]? = some (.callVal, sp)) :
+    exec1 code lim (mkS s (⟨fn, ip⟩ :: rest) mp k
+        (⟨.int (I64.ofInt 0), o1⟩ :: ⟨.bound (.opt none) "unwrap", o2⟩ :: stk) mem out) =
+      .intr (.throw "Called 'unwrap' on a 'null' option value" sp) (mkS s (⟨fn, ip⟩ :: rest) mp (k + 1) stk mem out) :=
+  mkS_callVal_meth0_throw code lim s fn ip rest mp k stk mem out c hf sp "unwrap" _ o1 o2 _ sp hx rfl
+
+/-- `Call_Val` on `unwrap` of `some null`: **nothing is pushed** (finding V28). -/
+theorem unwrap_vm_null (code : Code) (lim : Limits) (s : VMState) (fn : String) (ip : Nat)
+    (rest : List Frame) (mp : Int) (k : Nat) (stk : List SVal) (mem : List (Int × Val)) (out : World)
+    (c : List (RInstr × Span)) (hf : findCode code fn = some c) (sp : Span) (o1 o2 : Option Org)
+    (hx : c[ip]? = some (.callVal, sp)) :
+    exec1 code lim (mkS s (⟨fn, ip⟩ :: rest) mp k
+        (⟨.int (I64.ofInt 0), o1⟩ :: ⟨.bound (.opt (some .null)) "unwrap", o2⟩ :: stk) mem out) =
+      .next (mkS s (⟨fn, ip + 1⟩ :: rest) mp (k + 1) stk mem out) :=
+  mkS_callVal_meth0_null code lim s fn ip rest mp k stk mem out c hf sp "unwrap" _ o1 o2 hx rfl
+
+/-- `Call_Val` on `unwrap_or(d)`: the payload or the default, pushed unless it is `null`. -/
+theorem unwrapOr_vm (code : Code) (lim : Limits) (s : VMState) (fn : String) (ip : Nat)
+    (rest : List Frame) (mp : Int) (k : Nat) (stk : List SVal) (mem : List (Int × Val)) (out : World)
+    (c : List (RInstr × Span)) (hf : findCode code fn = some c) (sp : Span) (o : Option Val) (d : Val)
+    (o1 o2 o3 : Option Org)
+    (hx : c[ip]? = some (.callVal, sp)) (hv : o.getD d ≠ .null) :
+    exec1 code lim (mkS s (⟨fn, ip⟩ :: rest) mp k
+        (⟨.int (I64.ofInt 1), o1⟩ :: ⟨.bound (.opt o) "unwrap_or", o2⟩ :: ⟨d, o3⟩ :: stk) mem out) =
+      .next (mkS s (⟨fn, ip + 1⟩ :: rest) mp (k + 1) (⟨o.getD d, none⟩ :: stk) mem out) :=
+  mkS_callVal_meth1 code lim s fn ip rest mp k stk mem out c hf sp "unwrap_or" _ d o1 o2 o3 _ hx rfl hv
+
+section Example21
+private def tyOI : Ty := .opt .int
+private def gopt (x : String) : Expr := .ident sp0 tyOI x false false false
+private def gm0 (ty : Ty) (b : Expr) (m : String) : Expr := .call sp0 ty (.member sp0 (.fn [] ty) b m .dot) [] false
+private def gasgn' (x : String) (e : Expr) : Stmt := .exprS sp0 (.assign sp0 none (gv x) e)
+
+/-- `let o = ?null; let x = o.unwrap(); println(1);` -/
+private def wStmts : List Stmt :=
+  [ .letS sp0 "o" (.opt .null) false (.opt .null) (.pre sp0 (.opt .null) .some (.null sp0)),
+    .letS sp0 "x" .null false .null (gm0 .null (.ident sp0 (.opt .null) "o" false false false) "unwrap"),
+    gprint [.int sp0 1] ]
+private def wProg : Program :=
+  [{ name := "main", imports := [], singletons := [], globals := [], nImpls := 0,
+     fns := [gfn "main" [] .null wStmts none] }]
+
+/-- **Finding V28 on `unwrap`**: with a `null` payload the specification completes (output `1`), the VM
+panics with a stack underflow — `Call_Val` pushed nothing for `SetVar x` to pop. -/
+theorem unwrap_null_witness :
+    (match runProgram { prog := wProg } 200 with | .ok out _ => out | _ => "?") = "1\n" ∧
+    (match compile wProg "main" 100 with
+      | .ok c => (match runMain c {} 50 20000 with | .panic w _ => w | _ => "?")
+      | .error e => e) = "stack underflow" := by
+  constructor <;> decide +kernel
+
+/-- `let r = "none"; if o.is_some() { r = "some"; }` -/
+def describeStmts : List Stmt :=
+  [ .letS sp0 "r" .str false .str (.str sp0 "none"),
+    gif (gm0 .bool (gopt "o") "is_some") [ gasgn' "r" (.str sp0 "some") ] ]
+/-- `fn describe(o: ?int) -> str { …; r }` -/
+def describeFd : FnDef := gfn "describe" ["o"] .str describeStmts (some (gv "r"))
+/-- `fn main() { let a = ?5; let b = none; println(describe(a) + "/" + describe(b)); let s = "ab" + "cd";
+println(s.len()); println(s == "abcd"); println(b.is_none()); }` -/
+def main9Stmts : List Stmt :=
+  [ .letS sp0 "a" tyOI false tyOI (.pre sp0 tyOI .some (.int sp0 5)),
+    .letS sp0 "b" tyOI false tyOI (.none sp0),
+    gprint [.infix sp0 .str .add (.infix sp0 .str .add (gcall "describe" [gopt "a"]) (.str sp0 "/"))
+      (gcall "describe" [gopt "b"])],
+    .letS sp0 "s" .str false .str (.infix sp0 .str .add (.str sp0 "ab") (.str sp0 "cd")),
+    gprint [gm0 .int (gv "s") "len"],
+    gprint [.infix sp0 .bool .eq (gv "s") (.str sp0 "abcd")],
+    gprint [gm0 .bool (gopt "b") "is_none"] ]
+def main9Fd : FnDef := gfn "main" [] .null main9Stmts none
+def progR : Program :=
+  [{ name := "main", imports := [], singletons := [], globals := [], nImpls := 0, fns := [describeFd, main9Fd] }]
+
+/-- The whole program on the models themselves: the specification … -/
+example : (match runProgram { prog := progR } 200 with | .ok out _ => out | _ => "?") =
+    "some/none\n4\ntrue\ntrue\n" := by
+  decide +kernel
+/-- … and the VM, which ends with a clean core. -/
+example : (match compile progR "main" 100 with
+    | .ok c => (match runMain c {} 50 20000 with
+      | .ok s => (s.st.out, s.stack.length, s.mp, s.calls.length) | _ => ("?", 0, 0, 0))
+    | .error e => (e, 0, 0, 0)) = ("some/none\n4\ntrue\ntrue\n", 0, 0, 0) := by
+  decide +kernel
+
+def φR : String → Option String := fun n => if n = "describe" then some "@main.describe" else none
+def symDescribe : SCode := cgFn "main" φR describeFd describeStmts (some (gv "r")) [[]] [] []
+def symMain9 : SCode := cgFn "main" φR main9Fd main9Stmts none [[]] [] []
+def codeR : Code := [⟨"@main.describe", renameVars (relG symDescribe)⟩, ⟨"@main.main", renameVars (relG symMain9)⟩]
+
+local instance (priority := high) : BEq PVal := ⟨pvalBeq⟩
+/-- The real compiler produces `codeR` (kernel evaluation, instruction by instruction). -/
+example : (match compile progR "main" 100 with
+    | .ok c => (c.fns.filter fun f => f.name != "@main.@init").map (fun f => (f.name, f.code))
+        == codeR.map (fun f => (f.name, f.code))
+    | .error _ => false) = true := by decide +kernel
+
+def GR : GCtx := ⟨{ prog := progR }, codeR, {}, "main", {}, fun g => g = "describe", 12, 0, true⟩
+
+private theorem phiR : PhiOK GR φR := by
+  intro name f h
+  unfold φR at h
+  split at h
+  · rename_i hn; subst hn; cases h
+    exact ⟨by decide +kernel, rfl, describeFd, rfl, rfl⟩
+  · cases h
+
+theorem fnOK_describe : FnOK GR "describe" describeFd
+    ⟨renameVars (relG symDescribe), slotFn (relG symDescribe), labelIndex symDescribe, (· ∈ varNames (relG symDescribe)),
+      ["o", "r"], φR, [[]], [], []⟩ describeStmts (gv "r") :=
+  fn_compiled_okF GR describeFd describeStmts (gv "r") φR [[]] [] [] ["o", "r"] (relG symDescribe) ⟨sp0, .str, rfl⟩
+    (by decide) (relocate_relG _ (by decide +kernel))
+    (by
+      have h : mangleFnName GR.mod describeFd.name = "@main.describe" := by decide +kernel
+      rw [h]; simp [findCode, codeR, GR])
+    (by decide +kernel) (by decide +kernel) (by decide +kernel) (by decide +kernel)
+    (by decide +kernel) (by decide +kernel) (by decide +kernel) (by decide +kernel) (by decide +kernel)
+    (by decide +kernel) phiR
+
+theorem gr_ok : GR.OK' := by
+  refine ⟨?_, by decide, by decide, rfl, rfl, rfl⟩
+  intro g fd hK hfind
+  cases hK
+  have h : findFn GR.cfg.prog GR.mod "describe" = some describeFd := rfl
+  rw [h] at hfind; cases hfind
+  exact ⟨_, _, _, fnOK_describe, fun _ => by decide⟩
+
+theorem fnOK_main9 : FnVoidOK GR "main" main9Fd
+    ⟨renameVars (relG symMain9), slotFn (relG symMain9), labelIndex symMain9, (· ∈ varNames (relG symMain9)),
+      ["println", "describe", "a", "b", "s"], φR, [[]], [], []⟩ main9Stmts :=
+  fn_void_compiled_okF GR main9Fd main9Stmts φR [[]] [] [] ["println", "describe", "a", "b", "s"] (relG symMain9)
+    ⟨sp0, .null, rfl⟩ (by decide) (relocate_relG _ (by decide +kernel))
+    (by
+      have h : mangleFnName GR.mod main9Fd.name = "@main.main" := by decide +kernel
+      rw [h]; simp [findCode, codeR, GR])
+    (by decide +kernel) (by decide +kernel) (by decide +kernel) (by decide +kernel)
+    (by decide +kernel) (by decide +kernel) (by decide +kernel) phiR
+
+private theorem spec_main9 :
+    okOut "some/none\n4\ntrue\ntrue\n" (callBody GR.cfg 200 sp0 GR.mod main9Fd.params main9Fd.body [] stX) = true := by
+  decide +kernel
+
+/-- **The program through the theorems**: options built with `?5` and `none`, passed to a function that tests
+them with `is_some()` in an `if` condition; strings concatenated with `+` (also the results of two calls),
+measured with `len()`, compared with `==`; `is_none()` as a `println` argument: the specification's output. -/
+example : ∃ K, ∀ quantum, K ≤ quantum → ∀ vfuel, ∃ s',
+    run codeR {} quantum none (vfuel + 1) { calls := [⟨"@main.main", 0⟩] } = .ok s' ∧
+    s'.st.out = "some/none\n4\ntrue\ntrue\n" ∧ s'.mp = 0 ∧ s'.calls = [] := by
+  obtain ⟨fuel, hfuel⟩ : ∃ n : Nat, n = 200 := ⟨200, rfl⟩
+  have h := entry_runF GR gr_ok fuel "main" main9Fd _ main9Stmts fnOK_main9 (fun _ => by decide) sp0 stX 0 []
+    ⟨[], ⟨[], 0⟩⟩ ⟨fun _ => HeapInv.empty, rfl, rfl, by decide⟩ (by decide) (by decide) (by decide)
+  subst hfuel
+  have hs := spec_main9
+  rcases hev : callBody GR.cfg 200 sp0 GR.mod main9Fd.params main9Fd.body [] stX with ⟨res, st'⟩
+  rw [hev] at h hs
+  cases res with
+  | error e => simp [okOut] at hs
+  | ok v =>
+    simp only [okOut, beq_iff_eq] at hs
+    obtain ⟨K, hK⟩ := h
+    refine ⟨K, fun quantum hq vfuel => ?_⟩
+    obtain ⟨s', hrun, hst, hmp, hcalls, hstk⟩ := hK quantum hq vfuel
+    exact ⟨s', hrun, by rw [hst]; exact hs, hmp, hcalls⟩
+end Example21
 
 end HmsProofs.C01VM
